@@ -6,6 +6,7 @@ import Goyang.Lemmas.IncludeAugK
 import Goyang.Lemmas.IncludeAugOrder
 import Goyang.Lemmas.IncludeAugView
 import Goyang.Lemmas.IncludeAugCompose
+import Goyang.Lemmas.IncludeAugRows
 /-
 C13, third sentence — "An included submodule contributes its data nodes, typedefs, groupings and
 identities to the including module exactly as if they were written there."
@@ -91,15 +92,20 @@ Sets WITH augment statements:
     module's tree ⇒ equal dumps (namespace, read-only, instantiating module, path at every node).
   - `include_eq_inline_augments_reduced` — the composition, machine-checked: `IncludeEqInlineAugments` follows
     from `Lemmas.IncludeAugCompose.LoopsRelated` (the two loops run in the SAME module order: the split one
-    records no error, the owner's tree is the unsplit module's up to `SameTop σ`; `IOShape` of the owner's trees;
-    `SameIO`), under `LoadedShape` / `AugPosDistinct` / `AugArgsPlain` and `NoLeftover` of the split registry
-    (all decidable).
+    records no error and leaves nothing pending, the owner's tree is the unsplit module's up to `SameTop σ`;
+    `IOShape` of the owner's trees;
+    `SameIO`), under `IsSplitOf` and `LoadedShape` / `AugPosDistinct` / `AugArgsPlain` of the split registry only.
   Still missing for `IncludeEqInlineAugments`, i.e. for `LoopsRelated`: (A) the pending ENTRIES of the owner's
   row equal the unsplit module's up to `ren σ` (`context_independence` gives it per statement once the state
   at the call is known coherent; the module-level conversion proofs `IncludeMod.mod_conv` /
   `IncludeModN.part_conv_aux` call `fields_rel` with a state relation `RSm` that ignores `TState.augs` — the
-  `haug` argument of `fields_rel` is where a relation on the recorded rows has to be threaded through; for the
-  owner this means restating `PGoal`); (S) the lockstep simulation of the two loops in the SAME module order on
+  `haug` argument of `fields_rel` is where a relation on the recorded rows has to be threaded through — done for
+  a (sub)module without include statements, i.e. every module but the owner, in both registries:
+  `Lemmas.IncludeAugRows.mod_conv_rows` (the rows appended are related entry by entry, `REb σ`, to those of the
+  pure fold over the values); open: the owner (`part_conv_aux`: include steps between the field steps; its
+  augment step needs `Coh` of the state at that point — `Coh` is closed under sublists and the grouping cache
+  only grows, `Lemmas.Uses.gcache_extends`, so the exported coherence of the final state suffices) and the
+  assembly over the conversion order (`conv_unsplit`, `conv_split_mods` with a row clause in `UInv` / `SInv`)); (S) the lockstep simulation of the two loops in the SAME module order on
   forests related by `ren σ` / `SameTop` (`find` through `child?_sameTop`, `merge`/`updateAt` under `ren`; the
   split forest has the additional submodule trees and the other registry); (I) `IOShape` along the pipeline (it
   does not fit the `LocalBase` closure scheme: the `isRpc` flag is set on an entry after its children) and
@@ -1148,7 +1154,10 @@ theorem dump_of_view (o o' : Outcome) (m : Mod) (hreg : o'.reg = o.reg) {t t' : 
 and output of an rpc whether or not the entry exists (RFC 7950 7.14; goyang creates it lazily, when `Find`
 passes through it), the dump prints its record only when it exists.  `rpc0` (an rpc without input) and
 `rpc1` (the same after `Find` has created the input) show the same flat view, have `KeysUnique` and
-`IOShape`, and different dumps — in any forest, over any registry. -/
+`IOShape`, and different dumps — in any forest, over any registry.  The Go code behaves alike (replayed with a
+program in /tmp: `module m { … rpc r; }`, after `Process` `m.Dir["r"].RPC.Input == nil`; `m.Find("/m:r/input")`
+returns an entry named `input` and leaves `RPC.Input != nil`; harness/lib/dump.go prints the input record only
+when `RPC.Input != nil`). -/
 theorem dump_not_function_of_flat_view :
     Lemmas.IncludeAugView.VEq Lemmas.IncludeAugView.rpc0 Lemmas.IncludeAugView.rpc1 ∧
     Spec.Tree.KeysUnique Lemmas.IncludeAugView.rpc0 ∧ Spec.Tree.KeysUnique Lemmas.IncludeAugView.rpc1 ∧
@@ -1342,20 +1351,21 @@ theorem include_dump_of_related_trees (s : Split) (R R' : Registry) (plug plug' 
 /-- **include_eq_inline_augments_reduced.**  `IncludeEqInlineAugments` follows from `LoopsRelated` — the
 statement that pieces (A) and (S) have to deliver about the two augment loops run in the SAME module order
 (`Lemmas.IncludeAugCompose.LoopsRelated`: the loop over the split set in the unsplit set's module order
-records no error and leaves the owner's tree equal to the unsplit module's up to `SameTop σ`; plus `IOShape`
-of the owner's trees and `SameIO`, the bookkeeping of lazily created rpc inputs / outputs) — under C07's
-decidable input predicates on the split registry and nothing left pending in the split set either
-(`NoLeftover R'`, decidable).  Everything else of the composition is proved: the module order (C07, `include_augment_loop_order`),
+records no error, leaves nothing pending and leaves the owner's tree equal to the unsplit module's up to
+`SameTop σ`; plus `IOShape` of the owner's trees and `SameIO`, the bookkeeping of lazily created rpc inputs /
+outputs) — under `IsSplitOf` and C07's decidable input predicates on the split registry, nothing else
+(that the split set has no deviation statement and that its own loop leaves nothing pending is derived:
+`Lemmas.IncludeAugCompose.dev_split`, `noLeftover_split`).  Everything else of the composition is proved: the module order (C07, `include_augment_loop_order`),
 the passage from the flat view to the dump (E), `FixChoice` (F), the stages after the loop (`no_leftover_result`),
 and the dump of related trees (`include_dump_of_related_trees`). -/
 theorem include_eq_inline_augments_reduced (s : Split) (R R' : Registry) (opts : Opts) (plug plug' : Plug)
     (h : IsSplitOf s R R' plug plug') (hL : Lemmas.Fuel.LoadedShape R') (hpos : Lemmas.Bridge.AugPosDistinct R')
-    (hplain : Lemmas.Bridge.AugArgsPlain R') (hn' : Lemmas.IncludeAugOrder.NoLeftover R' opts plug')
+    (hplain : Lemmas.Bridge.AugArgsPlain R')
     (hS : (processAll R opts plug).errors = [] → Lemmas.IncludeAugOrder.NoLeftover R opts plug →
       Lemmas.IncludeAugCompose.LoopsRelated s R R' opts plug plug') :
     IncludeEqInlineAugments s R R' opts plug plug' :=
   fun hdev hn hclean =>
-    Lemmas.IncludeAugCompose.eq_inline_of_loopsRelated opts plug plug' h hL hpos hplain hn' hdev hn hclean (hS hclean hn)
+    Lemmas.IncludeAugCompose.eq_inline_of_loopsRelated opts plug plug' h hL hpos hplain hdev hn hclean (hS hclean hn)
 
 /-! non-vacuity of `include_eq_inline_augments_reduced`: `Ex` (no augment statement: both loops return the
 converted forests, which `include_conversion` relates; the unsplit tree is evaluated in the kernel) -/
@@ -1385,20 +1395,19 @@ theorem loopsRelated : LoopsRelated sp R R' {} plug plug := by
     Lemmas.IncludeNoAug.augmentLoop_nil R' _ _ _ (Lemmas.IncludeNoAug.pstate0_nil R' {} plug hna')
   have hs' := ioShape_sameTop sp.σ hst hs
   have hr' := noRpc_sameTop sp.σ hst hr
-  refine ⟨by rw [e3]; exact c1, t, t', t', by rw [e1]; exact ht, by rw [e2]; exact ht', by rw [e3]; exact ht', hst, hs', hs',
+  refine ⟨by rw [e3]; exact c1,
+    fun id => by rw [e3]; exact Lemmas.IncludeNoAug.pendingOf_nil _ (Lemmas.IncludeNoAug.pstate0_nil R' {} plug hna') id,
+    t, t', t', by rw [e1]; exact ht, by rw [e2]; exact ht', by rw [e3]; exact ht', hst, hs', hs',
     sameIO_of_noRpc hr' hs' hr' hs'⟩
 
 /-- The hypotheses of `include_eq_inline_augments_reduced` hold of `Ex` (`AugArgsPlain`: no augment statement). -/
 example : IncludeEqInlineAugments sp R R' {} plug plug := by
   have hna' : NoAugDev R' := noAugDev_split plug plug isSplit noAugDev
   refine include_eq_inline_augments_reduced sp R R' {} plug plug isSplit (by decide +kernel) (by decide +kernel) ?_
-    ?_ (fun _ _ => loopsRelated)
-  · intro m hm a ha
-    rw [(hna' m hm).1] at ha
-    cases ha
-  · intro p hp
-    rw [Lemmas.IncludeNoAug.afterLoop_nil R' {} plug hna'] at hp
-    exact Lemmas.IncludeNoAug.pstate0_nil R' {} plug hna' p hp
+    (fun _ _ => loopsRelated)
+  intro m hm a ha
+  rw [(hna' m hm).1] at ha
+  cases ha
 end ExR
 
 /-- The hypotheses of `include_dump_of_related_trees` hold of the two results on `Ex`. -/
